@@ -97,6 +97,18 @@ def _invisible(case):
     return a, b, sa, sb
 
 
+def _fix_text(doc):
+    import os
+    from core import Scratch
+    with Scratch("pv-c11f-") as d:
+        p = os.path.join(d, "f.md")
+        open(p, "wb").write(doc.encode("utf-8"))
+        code, out, err = impl.run_cli(["fix", "f.md"], cwd=d)
+        if code not in (0, 3):
+            return None
+        return open(p, "rb").read().decode("utf-8")
+
+
 def run(ctx):
     ctx.prove("Props/C11.v", ["Base/RuleTypes.v", "Gen/RuleTable.v", "Gen/FailureLt.v", "Model/Report.v", "Model/Pragma.v", "Proofs/PragmaProofs.v"])
     rules = read_rules(core.REPO)
@@ -186,6 +198,21 @@ def run(ctx):
             continue
         ctx.seen(inp)
     ctx.corr_cases += len(space)
+    # ---- fix mode: every pragma line of the file is still there, in order, after `fix` (a pragma that is lost no longer suppresses)
+    pr_lines = ["a", "", "```", "x", "<!-- pyml disable-next-line md013-->", "<!--- pyml disable-next-line md009-->", "<!-- pyml disable-next-line md010-->", "# h", "b  ", "    c"]
+    fdocs = [d for d in gen.sample(list(gen.d_line(pr_lines, 5, final_newline=(True,))), 6000, 41)[:6000 if ctx.tier == "thorough" else 900] if "pyml" in d]
+    fdocs += ["a\n```\nx\n```\n<!-- pyml disable-next-line md009-->\n<!-- pyml disable-next-line md010-->\nc\n",
+              "a\n\n\n\n<!-- pyml disable-next-line md009-->\nb \n<!-- pyml disable-next-line md010-->\nc\n"]
+    for d, fixed in zip(fdocs, impl.pmap(_fix_text, fdocs, chunksize=16)):
+        ctx.count(1, "fix-keeps-pragmas")
+        if fixed is None:
+            continue
+        want = [l for l in d.split("\n") if "pyml" in l]
+        got = [l for l in fixed.split("\n") if "pyml" in l]
+        if fixed != d:
+            ctx.seen(["fixp", d])
+        if want != got:
+            ctx.violation("fix-keeps-pragmas", {"doc": d}, f"after fix the pragma lines are {got} (fixed file {fixed[:100]!r})", group="fix-loses-pragma")
     ctx.trusted += [
         "translator rule_table.py (ids and aliases for the pragma id lookup)",
         "correspondence: Model/Pragma.v is_pragma_line / parse_pragma / compile / suppressed / n_errors (vm_compute) vs the parser's pragma token, PyMarkdownApi pragma_errors and the failures that survive, on generated pragma lines (both prefixes, commands in several spellings, every id/alias kind, counts -1..9, blank/unknown ids, odd spacing, wrong terminators), one or two per document incl. overlapping next-line/num-lines",
